@@ -84,7 +84,7 @@ Init == ev \in Cases /\ pc = "scan" /\ snd = [len |-> 0, vecs |-> {}] /\ win = [
 
 Scan ==
   /\ pc = "scan"
-  /\ snd' = MinSet(ev.G, Images(ev.D, RedSep(ev), ev.B))
+  /\ snd' = IF ev.kind = "tol" THEN snd ELSE MinSet(ev.G, Images(ev.D, RedSep(ev), ev.B))
   /\ win' = IF ev.kind = "model" THEN MinSet(ev.G, WindowImages(ev.D, ev.d)) ELSE win
   /\ pc' = "done"
   /\ UNCHANGED ev
@@ -95,7 +95,7 @@ Spec == Init /\ [][Next]_svars
 AtEnd == pc = "done"
 
 (* machinery soundness (a failure is a defect of the case generator, not of phonopy) *)
-InvBoxSound == AtEnd => BoxSound(ev.G, ev.D, RedSep(ev), ev.B, snd.len)
+InvBoxSound == (AtEnd /\ ev.kind # "tol") => BoxSound(ev.G, ev.D, RedSep(ev), ev.B, snd.len)
 InvCaseWellFormed ==
   /\ ev.kind = "model" => Niggli(ev.G) /\ \A i \in I3 : 2 * Abs(ev.d[i]) <= ev.D
   /\ ev.kind = "impl" => /\ Unimodular(ev.U)
@@ -122,4 +122,25 @@ ImplAreImages == (AtEnd /\ ev.kind = "impl") =>
 (* dense addresses are the running sum of multiplicities; converters agree (evaluated by the harness
    on the whole table, logged per pair) *)
 ImplAddressOK == (AtEnd /\ ev.kind = "impl") => ev.addrOK /\ ev.convertOK
+
+(* ---- the tolerance window itself (kind "tol") ------------------------------------------------- *)
+(* Positions displaced from a tie site by an amount comparable to the tolerance are not on any     *)
+(* integer grid; the requirement is then the statement of the property itself, in real numbers:   *)
+(* with m the true minimum length over ALL lattice images (found by the harness by brute force in  *)
+(* a box whose sufficiency it checks) and t the tolerance of the call,                             *)
+(*   within   : every stored vector is an image and has length <= m + t (1 + 1e-6)                  *)
+(*   complete : every image of length <  m + t (1 - 1e-6) is stored                                *)
+(*   nodup    : no image is stored twice;  multi : multiplicity = number stored                    *)
+(*   same     : dense and sparse tables hold the same set                                          *)
+(* The real comparisons are evaluated by the harness in binary64 and logged per pair and table;    *)
+(* images whose length lies within 1e-6 t of the window's edge may be on either side.              *)
+TolTables == {"dense", "sparse"}
+ImplTolWithin   == (AtEnd /\ ev.kind = "tol") => \A k \in TolTables : ev.within[k]
+ImplTolComplete == (AtEnd /\ ev.kind = "tol") => \A k \in TolTables : ev.complete[k]
+ImplTolNoDup    == (AtEnd /\ ev.kind = "tol") => \A k \in TolTables : ev.nodup[k]
+ImplTolMulti    == (AtEnd /\ ev.kind = "tol") => \A k \in TolTables : ev.multi[k]
+ImplTolSame     == (AtEnd /\ ev.kind = "tol") => ev.same
+(* vacuity: the harness must have produced pairs whose window holds more than the strict minimum  *)
+(* and pairs where a near-tie lies outside it (logged per event)                                    *)
 =============================================================================
+
